@@ -169,6 +169,7 @@ type builder struct {
 	reach  []bool
 	depth  []int
 	in     [][]int32
+	out    [][]int32
 	avoid  map[int]bool
 }
 
@@ -183,10 +184,37 @@ func newBuilder(g *graph, avoid map[int]bool) *builder {
 		}
 	}
 	b.in = make([][]int32, len(g.nodes))
+	b.out = make([][]int32, len(g.nodes))
 	for i, e := range g.edges {
 		b.in[e.to] = append(b.in[e.to], int32(i))
+		b.out[e.from] = append(b.out[e.from], int32(i))
 	}
 	return b
+}
+
+func (b *builder) step(from int32, label string) (int32, bool) {
+	for _, ei := range b.out[from] {
+		if b.g.edges[ei].label == label {
+			return b.g.edges[ei].to, true
+		}
+	}
+	return 0, false
+}
+
+// altOrderOK: in a staged race the cancelled waiter p may get s.mu before the admitting
+// call; that execution is the model path CtxDoneRemove(p); op. It is accepted (and the
+// case repeated) only if the observed state is the specified state of that path.
+func (b *builder) altOrderOK(t tcase, o obsT) bool {
+	le := b.g.edges[t.last]
+	y1, ok := b.step(le.from, fmt.Sprintf("CtxDoneRemove(%d)", t.HookCancel))
+	if !ok {
+		return false
+	}
+	z1, ok := b.step(y1, le.label)
+	if !ok {
+		return false
+	}
+	return projEq(canon(b.g.nodes[z1]), o.proj)
 }
 
 // make builds the case of edge ei. ok=false with implied=true: a CtxDoneAlreadyReady(p)
@@ -445,7 +473,7 @@ func replayGraph(c *core.Ctx, drv, name string, d dumped, np, nproc int, sample 
 				caseOf[t.edge] = t
 				if t.HookCancel > 0 {
 					st.CtxReadyRuns++
-					if o.Err == "" && o.Raced == "remove" {
+					if o.Err == "" && o.Raced == "remove" && b.altOrderOK(t, o) {
 						// the cancelled waiter got s.mu before the admitting call: that execution
 						// is CtxDoneRemove(p) followed by the operation, not the transition under test
 						again = append(again, t)
@@ -474,8 +502,9 @@ func replayGraph(c *core.Ctx, drv, name string, d dumped, np, nproc int, sample 
 			}
 			pending = again
 		}
-		if len(pending) > 0 {
-			return st, g, fmt.Errorf("%d CtxDoneAlreadyReady transitions could not be exercised in 60 attempts (the cancelled waiter always won the race for s.mu)", len(pending))
+		for _, t := range pending {
+			mism[t.edge] = "in 60 staged races the cancelled waiter always removed itself before the admitting call ran"
+			caseOf[t.edge] = t
 		}
 		// primary mismatches: own case mismatches and no edge of its prefix does
 		var shadowed []int
@@ -528,14 +557,25 @@ func replayGraph(c *core.Ctx, drv, name string, d dumped, np, nproc int, sample 
 		if reported[key] {
 			continue
 		}
-		again, err := runCases(drv, np, []tcase{t}, 1, 1)
-		if err != nil {
-			return st, g, err
+		var again []*obsT
+		m2 := ""
+		bb := newBuilder(g, nil)
+		for try := 0; try < 60; try++ {
+			var err error
+			again, err = runCases(drv, np, []tcase{t}, 1, 1)
+			if err != nil {
+				return st, g, err
+			}
+			if again[0] == nil {
+				return st, g, fmt.Errorf("reproduction run of %v did not execute", t.Ops)
+			}
+			if t.HookCancel > 0 && again[0].Err == "" && again[0].Raced == "remove" && bb.altOrderOK(t, *again[0]) {
+				m2 = "in 60 staged races the cancelled waiter always removed itself before the admitting call ran"
+				continue
+			}
+			m2 = checkCase(g, t, *again[0])
+			break
 		}
-		if again[0] == nil {
-			return st, g, fmt.Errorf("reproduction run of %v did not execute", t.Ops)
-		}
-		m2 := checkCase(g, t, *again[0])
 		if m2 == "" {
 			return st, g, fmt.Errorf("mismatch on %v (%s) was not reproduced in a fresh driver process", t.Ops, mism[ei])
 		}
